@@ -569,7 +569,13 @@ func (e *Exec) feedReplica(r *Replica) {
 
 func (e *Exec) restart(r *Replica, near int64) bool {
 	if r.NextCfg != nil {
+		// the IAVL fast-node setting stays what it was when the database was created: enabling it on a database
+		// that holds a partially written Commit makes iavl v0.20.1 build its fast index from the older tree and
+		// label it with the newer version, after which reads are stale although the app hash is right - a
+		// dependency defect (seen with VERIF_SEED=1 on the unchanged tree) that says nothing about panacea-core
+		fast := r.Cfg.FastNodeOff
 		r.Cfg = *r.NextCfg
+		r.Cfg.FastNodeOff = fast
 		r.NextCfg = nil
 		e.Stats.Inc("fault.restart.reconfig")
 	}
